@@ -21,17 +21,43 @@ import (
 // is read from the syntax tree of the very file the harness was compiled from
 // (located through the pc of an exported function of the package).
 func genMonitorTiming(out string) error {
+	v, err := c18LookaheadErr()
+	if err != nil {
+		return err
+	}
+	var sb strings.Builder
+	sb.WriteString(genHeader)
+	sb.WriteString("(* udp/server/server.go getConn: cc.CheckExpirations(time.Now().Add(lookahead)), nanoseconds *)\n")
+	fmt.Fprintf(&sb, "Definition lookahead : Z := %d.\n", v)
+	return writeIfChanged(filepath.Join(out, "MonitorTiming.v"), sb.String())
+}
+
+var c18LookaheadCache int64 = -1
+
+func c18Lookahead() int64 {
+	if c18LookaheadCache >= 0 {
+		return c18LookaheadCache
+	}
+	v, err := c18LookaheadErr()
+	if err != nil {
+		panic(err)
+	}
+	c18LookaheadCache = v
+	return v
+}
+
+func c18LookaheadErr() (int64, error) {
 	pc := reflect.ValueOf(udpServer.New).Pointer()
 	fn := runtime.FuncForPC(pc)
 	if fn == nil {
-		return fmt.Errorf("monitor timing: cannot locate udp/server sources")
+		return 0, fmt.Errorf("monitor timing: cannot locate udp/server sources")
 	}
 	file, _ := fn.FileLine(pc)
 	src := filepath.Join(filepath.Dir(file), "server.go")
 	fset := token.NewFileSet()
 	f, err := parser.ParseFile(fset, src, nil, 0)
 	if err != nil {
-		return fmt.Errorf("monitor timing: %w", err)
+		return 0, fmt.Errorf("monitor timing: %w", err)
 	}
 	var found []int64
 	for _, d := range f.Decls {
@@ -57,13 +83,9 @@ func genMonitorTiming(out string) error {
 		})
 	}
 	if len(found) != 1 {
-		return fmt.Errorf("monitor timing: expected exactly one cc.CheckExpirations(time.Now().Add(d)) in udp/server.getConn, found %d", len(found))
+		return 0, fmt.Errorf("monitor timing: expected exactly one cc.CheckExpirations(time.Now().Add(d)) in udp/server.getConn, found %d", len(found))
 	}
-	var sb strings.Builder
-	sb.WriteString(genHeader)
-	sb.WriteString("(* udp/server/server.go getConn: cc.CheckExpirations(time.Now().Add(lookahead)), nanoseconds *)\n")
-	fmt.Fprintf(&sb, "Definition lookahead : Z := %d.\n", found[0])
-	return writeIfChanged(filepath.Join(out, "MonitorTiming.v"), sb.String())
+	return found[0], nil
 }
 
 // evalNowAdd recognises time.Now().Add(d) or time.Now() and returns d in ns.
